@@ -248,6 +248,9 @@ func (vc *VC) deferCall(x *ssa.Defer, st *State, reach string) {
 			return
 		}
 	}
+	if vc.deferLiteral(x) { // captproj.go (x-c17): contract applied at rundefers
+		return
+	}
 	panic(unsupported("defer"))
 }
 
